@@ -134,6 +134,10 @@ class Group(EntityContainer):
         if parent is None:
             parent = self.parent
 
+        # the children to reproduce: as they are before the copy exists (the copy
+        # becomes a child of the group itself when it is copied under itself)
+        children = list(self.children)
+
         new_entity = parent.workspace.copy_to_parent(
             self, parent, copy_children=False, **kwargs
         )
@@ -142,7 +146,7 @@ class Group(EntityContainer):
             return None
 
         if copy_children:
-            for child in self.children:
+            for child in children:
                 child.copy(
                     parent=new_entity,
                     copy_children=True,
@@ -164,6 +168,8 @@ class Group(EntityContainer):
         """
         Sub-class extension of :func:`~geoh5py.shared.entity.Entity.copy_from_extent`.
         """
+        children = list(self.children)
+
         copy_group = self.copy(
             parent=parent,
             clear_cache=clear_cache,
@@ -175,7 +181,7 @@ class Group(EntityContainer):
             return None
 
         if copy_children:
-            for child in self.children:
+            for child in children:
                 child.copy_from_extent(
                     extent,
                     parent=copy_group,
